@@ -227,6 +227,38 @@ pub fn run(ctx: &mut Ctx) {
             Ok(Err(e)) => ctx.violation(&format!("from_tx-extract_tx-failed/{}", class), json!({"err": format!("{:?}", e), "in": d()})),
             Err(p) => ctx.panic_violation("from_tx/extract_tx", &p, d()),
         }
+        // 3b. the same after an updater has put the explicit amounts next to the commitments
+        // (what a blinder leaves behind): PSET input and extracted input still agree with the TxIn
+        if av == 2 || kv == 2 {
+            let res = guard(|| {
+                let mut ps = Pset::from_tx(tx.clone());
+                {
+                    let i0 = &mut ps.inputs_mut()[0];
+                    if i0.issuance_value_comm.is_some() {
+                        i0.issuance_value_amount = Some(1 + (k % 1000));
+                    }
+                    if i0.issuance_inflation_keys_comm.is_some() {
+                        i0.issuance_inflation_keys = Some(1 + (k % 7));
+                    }
+                }
+                let ids = ps.inputs()[0].issuance_ids();
+                (ids, ps.extract_tx())
+            });
+            match res {
+                Ok(((pa, pt), Ok(ex))) => {
+                    ctx.check(pa.to_byte_array() == want_a && pt.to_byte_array() == want_t, &format!("pset-input-ids!=TxIn-ids/explicit-next-to-commitment/{}", class), || {
+                        json!({"pset_asset": hex(&pa.to_byte_array()), "pset_token": hex(&pt.to_byte_array()), "in": d()})
+                    });
+                    let (ea, et) = ex.input[0].issuance_ids();
+                    ctx.check(ea.to_byte_array() == want_a && et.to_byte_array() == want_t, &format!("extracted-input-ids!=TxIn-ids/explicit-next-to-commitment/{}", class), || {
+                        json!({"extracted_asset": hex(&ea.to_byte_array()), "extracted_token": hex(&et.to_byte_array()), "in": d()})
+                    });
+                    ctx.count("explicit-next-to-commitment-cases");
+                }
+                Ok((_, Err(e))) => ctx.violation(&format!("from_tx-extract_tx-failed/explicit-next-to-commitment/{}", class), json!({"err": format!("{:?}", e), "in": d()})),
+                Err(p) => ctx.panic_violation("from_tx/extract_tx", &p, d()),
+            }
+        }
         // 4. the free-standing constructors agree with each other and the reference
         if !reissue {
             let ch = ContractHash::from_byte_array(txin.asset_issuance.asset_entropy);
